@@ -17,4 +17,4 @@ print("baseline tests passing: %d / %d" % (len(base & passed), len(base)))
 for m in missing: print("  MISSING", m)
 PY
 tail -2 /tmp/suite_$$.log
-git -C /repo worktree remove --force "$wt"; rm -rf /tmp/suite_home_$$ /tmp/suite_$$.xml /tmp/suite_$$.log
+git -C /repo worktree remove --force "$wt"; rm -rf /tmp/suite_home_$$ /tmp/suite_$$.xml; mv /tmp/suite_$$.log /tmp/suite_last.log
